@@ -269,6 +269,7 @@ def explore(ctx):
             nsteps = rng.randint(3, 12)
             for k in range(nsteps):
                 structs = list(d._structures_dict.values())
+                trunk_before, newick_before, iter_before = [int(s.idx) for s in d.trunk], d.to_newick(), [int(s.idx) for s in d]
                 op = rng.choice(['level', 'descendants', 'npix', 'peak', 'ancestor', 'mask', 'newick', 'to_newick',
                                  'prune', 'prune', 'saveload', 'plotter', 'plotter_reuse', 'lines'])
                 try:
@@ -360,6 +361,11 @@ def explore(ctx):
                         history.append([op])
                 except Exception as e:
                     bad = ['operation %s raised %r' % (op, e)]
+                if bad is None and op != 'prune':
+                    # a query (attribute, Newick text, file, plotter, line collection) leaves the dendrogram as it was
+                    now = ([int(s.idx) for s in d.trunk], d.to_newick(), [int(s.idx) for s in d])
+                    if now != (trunk_before, newick_before, iter_before):
+                        bad = ['operation %s changed the trunk order / Newick text / iteration order: %s -> %s' % (op, (trunk_before, newick_before), now[:2])]
                 # observing warms every cache of the live dendrogram, so the complete comparison is
                 # made at the end of the history and only occasionally in between
                 if bad is None and (k == nsteps - 1 or rng.random() < 0.12):
